@@ -32,3 +32,18 @@ Check gui_form_needed.
 (** non-vacuity: extension, verbatim repeat, shortening, ucinewgame, FEN with castling *)
 Check run_mixed.
 Check mixed_by_theorem.
+
+(** * Sessions that also search and change options (Lemmas/UciLegal5.v)
+    after ANY list of `position` (GUI form), `ucinewgame`, `go depth d` and `setoption name Hash value n`
+    commands on the sequential UCI model - the model compared line by line with real driver sessions -
+    the driver is alive and the engine game is [setup line] for the LAST position line: a search (which
+    forks the board and threads the table) and a table-size change between two position lines never
+    disturb the game, and a following continuation line continues it *)
+From Morlock.Lemmas Require Import UciLegal4 UciLegal5 UciLegal.
+Definition C10_session_game := @session_game.
+Check @session_game.
+Print Assumptions session_game.
+Check @session_inv.
+Definition C10_session_game_noq := @uci_session_game_noq.
+Check @uci_session_game_noq.
+Print Assumptions uci_session_game_noq.
